@@ -927,8 +927,35 @@ func (w *World) checkExistential(r *Report, key string, fn *ssa.Function, prims 
 			why = "the inner node-set is not re-armed (Evaluate) for each node of the outer one"
 		}
 	}
+	// (6) every node pulled from a node-set operand reaches a primitive comparison before the next pull
+	for _, comp := range cfgSCCs(fn) {
+		inComp := map[*ssa.BasicBlock]bool{}
+		for _, b := range comp {
+			inComp[b] = true
+		}
+		cut := map[*ssa.BasicBlock]bool{}
+		hasSel := false
+		for _, b := range comp {
+			for _, in := range b.Instrs {
+				if c, ok := in.(*ssa.Call); ok {
+					if prims[c.Call.StaticCallee()] {
+						cut[b] = true
+					}
+					if c.Call.IsInvoke() && c.Call.Method.Name() == sel {
+						hasSel = true
+					}
+				}
+			}
+		}
+		if hasSel {
+			if cyc := residualCycle(comp, inComp, cut); cyc != nil {
+				okAll = false
+				why = fmt.Sprintf("the loop can pull the next node (through block %d) without comparing the current one: a node whose value is not a number is skipped instead of being compared as NaN, so `!=` misses it", cyc.Index)
+			}
+		}
+	}
 	if okAll {
-		r.ok("A-CELLS", key+":existential", w.pos(fn.Pos()), "true only under a true comparison; false only on exhaustion")
+		r.ok("A-CELLS", key+":existential", w.pos(fn.Pos()), "true only under a true comparison; false only on exhaustion; every pulled node is compared")
 	} else {
 		r.bad("A-CELLS", key+":existential", w.pos(fn.Pos()), fn.Name()+" is not existential: "+why)
 	}
